@@ -75,7 +75,7 @@ Proof.
   assert (Hlt : norm c es0 < length (v_next s)) by (rewrite Hn; apply norm_lt).
   destruct (oids_set _ _ Hlt) as (R & Ha & Hb). rewrite En in Ha.
   rewrite !vpend_eq. subst s1. cbn [v_mod v_next]. rewrite !ids_app.
-  rewrite (Hb (Some t)), Ha. cbn [oids flat_map ids map app]. rewrite !ids_app. cbn [ids map]. perm_solve.
+  rewrite (Hb (Some t)), Ha. cbn [oids flat_map app]. rewrite ?ids_app. cbn [ids map]. perm_solve.
 Qed.
 
 Lemma vnext_spec {m} c (s : vstate m) es s' o : vinv c s -> vnext c s es = (s', o) ->
@@ -125,7 +125,8 @@ Lemma vround_spec {m} c ess : forall (s s' : vstate m) l, vinv c s -> vround c s
   Forall (fun p => In (fst p) ess) l.
 Proof.
   induction ess as [|es r IH]; intros s s' l Hi H; cbn [vround] in H.
-  - injection H as <- <-. repeat split; auto. intros es [].
+  - injection H as <- <-. split; [auto|]. split; [apply Permutation_refl|]. split; [|constructor].
+    intros _. split; [reflexivity|]. intros es [].
   - destruct (vnext c s es) as [s1 o] eqn:En. destruct (vround c s1 r) as [s2 l2] eqn:Er.
     injection H as <- <-.
     destruct (vnext_spec _ _ _ _ _ Hi En) as [Hi1 Ho].
@@ -136,9 +137,9 @@ Proof.
     destruct o as [t|].
     + split; [cbn [map snd]; rewrite Ho, Hp; perm_solve|]. split; [discriminate|].
       constructor; auto. left; auto.
-    + destruct Ho as (-> & Ho1 & Ho2). repeat split; auto.
-      * intros ->. apply Hn; auto.
-      * intros -> es' [<-|Hin]; [rewrite En; auto|]. apply Hn; auto.
+    + destruct Ho as (-> & Ho1 & Ho2). split; [exact Hp|]. split; [|exact Hf'].
+      intros ->. destruct (Hn eq_refl) as [Hs Hall]. split; [exact Hs|].
+      intros es' [<-|Hin]; [rewrite En; auto|]. apply Hall; auto.
 Qed.
 
 Lemma in_seq0 n i : i < n -> In i (seq 0 n).
@@ -178,7 +179,8 @@ Lemma vrounds_spec {m} c k : forall (s s' : vstate m) l, wf c -> vinv c s -> vro
   (length (vpend s) <= k -> vpend s' = []).
 Proof.
   induction k as [|j IH]; intros s s' l Hwf Hi H; cbn [vrounds] in H.
-  - injection H as <- <-. repeat split; auto. intros Hl. destruct (vpend s); [auto|cbn in Hl; lia].
+  - injection H as <- <-. split; [auto|]. split; [apply Permutation_refl|].
+    intros Hl. destruct (vpend s); [auto|cbn in Hl; lia].
   - destruct (vround c s (seq 0 (cn c))) as [s1 l1] eqn:Er. destruct (vrounds j c s1) as [s2 l2] eqn:Ek.
     injection H as <- <-.
     destruct (vround_spec _ _ _ _ _ Hi Er) as (Hi1 & Hp1 & Hn1 & _).
@@ -203,12 +205,13 @@ Proof.
   - injection H as <- <-. destruct (Hn1 eq_refl) as [-> Hnone].
     assert (He : vpend s = []).
     { apply (idle_means_empty c s Hwf Hi). intros es Hes. apply Hnone, in_seq0; auto. }
-    repeat split; auto. rewrite He. constructor.
+    split; [auto|]. split; [exact He|]. split; [rewrite He; constructor|constructor].
   - destruct (vdrain f c s1) as [s2 l2] eqn:Ed. injection H as <- <-.
     assert (Hlen1 : length (vpend s1) < f).
     { apply Permutation_length in Hp1. rewrite app_length, map_length in Hp1. cbn [length] in Hp1. lia. }
     destruct (IH _ _ _ Hwf Hi1 Hlen1 Ed) as (Hi2 & He2 & Hp2 & Hf2).
-    repeat split; auto.
+    change (p :: l1' ++ l2) with ((p :: l1') ++ l2).
+    split; [auto|]. split; [exact He2|]. split.
     + rewrite map_app, Hp1, Hp2. perm_solve.
     + apply Forall_app; auto.
 Qed.
@@ -251,6 +254,7 @@ Proof.
     + injection H as <- <-. split; auto.
     + destruct (vdrain f c s1) as [s2 l2] eqn:Ed. injection H as <- <-.
       destruct (IH _ _ _ Hi1 Ed) as [Hi2 Hp2]. split; auto.
+      change (p :: l1' ++ l2) with ((p :: l1') ++ l2).
       rewrite map_app, Hp1, Hp2. perm_solve.
 Qed.
 
